@@ -1,5 +1,5 @@
 import Rangers.Proofs.C09Envelope
-import Rangers.Props.C09
+import Rangers.Props.C09B
 /-!
 # C09, part 7 — the p2p envelope (`network/message.go`) and the frame header (`network/conn.go`)
 
@@ -139,5 +139,102 @@ theorem frame_total (m : Bytes) :
     exact ⟨_, by simp only [unloadMsg, this, if_false]; rfl, rfl⟩
 
 example : unloadMsg (loadMsg [0x80, 0, 0, 1] 7 9 [0xaa]) = (⟨some [0x80, 0, 0, 1], 0, 7, 9⟩, some [0xaa]) := by decide
+
+/-! ## transaction request (`core/msg_handler.go` / `core/msg_sender.go`) -/
+
+/-- `unMarshalTransactionRequestMessage` yields an object or an error for every byte string: its only
+    dereference (`*m.BlockHeight`) is of a required field, checked by the reader before the converter runs. -/
+theorem parse_total_txreq (bs : Bytes) : IsObjOrErr (unmarshalTxReq bs) := by
+  unfold unmarshalTxReq
+  split
+  · exact True.intro
+  · split
+    · exact True.intro
+    · split <;> exact True.intro
+
+/-- What the request carries: 32-byte hashes, a uint64 height, a non-negative prove value. -/
+def TxReqValid (m : TxReq) : Prop :=
+  (∀ p ∈ m.hashes, p.1.length = 32 ∧ p.2.length = 32) ∧ m.current.length = 32 ∧ m.height < 2 ^ 64 ∧
+  ∃ v : Nat, m.pv = some (v : Int) ∧ (natToBE v).length < 2 ^ 64
+
+theorem decTxHashV2_enc (a b : Bytes) (ha : a.length = 32) (hb : b.length = 32) :
+    decTxHashV2 (encRaws (rawsOfTxHash ⟨some a, some b⟩)) = some ⟨some a, some b⟩ := by
+  have hwf : RawsWF2 (rawsOfTxHash ⟨some a, some b⟩) := by
+    intro r hr
+    simp only [rawsOfTxHash, optLenR, List.cons_append, List.nil_append, List.mem_cons, List.not_mem_nil, or_false] at hr
+    rcases hr with rfl | rfl
+    · exact ⟨by decide, by decide, by rw [ha]; decide⟩
+    · exact ⟨by decide, by decide, by rw [hb]; decide⟩
+  simp only [decTxHashV2, parseRawV2_encRaws _ hwf, txHashOfRaws_raws]
+
+theorem encTxHash_length (a b : Bytes) (ha : a.length = 32) (hb : b.length = 32) :
+    (encRaws (rawsOfTxHash ⟨some a, some b⟩)).length < 2 ^ 64 := by
+  have e34 : encVarint 10 = [10] ∧ encVarint 18 = [18] ∧ encVarint 32 = [32] := by decide
+  simp only [rawsOfTxHash, optLenR, List.cons_append, List.nil_append, encRaws, encRaw, ha, hb, e34.1, e34.2.1, e34.2.2,
+    List.length_append, List.length_cons, List.length_nil, List.append_nil]
+  decide
+
+/-- The transaction request is lossless across the two protobuf runtimes (written by gogo, read by protobuf-go). -/
+theorem txreq_roundtrip (m : TxReq) (h : TxReqValid m) :
+    ∃ bs, marshalTxReq m = .ok bs ∧ unmarshalTxReq bs = .ok m := by
+  obtain ⟨hh, hc, hht, v, hpv, hvl⟩ := h
+  cases m with
+  | mk hashes current height pv =>
+  simp only at hh hc hht hpv
+  subst hpv
+  refine ⟨_, rfl, ?_⟩
+  have hchunks : ∀ c ∈ hashes.map (fun p => encRaws (rawsOfTxHash ⟨some p.1, some p.2⟩)), c.length < 2 ^ 64 := by
+    intro c hcm
+    simp only [List.mem_map] at hcm
+    obtain ⟨p, hp, rfl⟩ := hcm
+    exact encTxHash_length p.1 p.2 (hh p hp).1 (hh p hp).2
+  have hwf : RawsWF2 (rawsOfTxReq ⟨hashes, current, height, some (v : Int)⟩ (v : Int)) := by
+    intro r hr
+    simp only [rawsOfTxReq, List.mem_append, List.mem_cons, List.not_mem_nil, or_false] at hr
+    rcases hr with hr | rfl | rfl | rfl
+    · exact RawsWF2_repLenR 1 _ (by decide) (by decide) hchunks r hr
+    · exact ⟨by decide, by decide, by rw [hc]; decide⟩
+    · exact ⟨by decide, by decide, hht⟩
+    · exact ⟨by decide, by decide, by simpa using hvl⟩
+  have e1 : allLen 1 (rawsOfTxReq ⟨hashes, current, height, some (v : Int)⟩ (v : Int)) =
+      hashes.map (fun p => encRaws (rawsOfTxHash ⟨some p.1, some p.2⟩)) := by
+    simp [rawsOfTxReq, allLen_append, allLen]
+  have em : mapM' decTxHashV2 (hashes.map (fun p => encRaws (rawsOfTxHash ⟨some p.1, some p.2⟩))) =
+      some (hashes.map (fun p => (⟨some p.1, some p.2⟩ : PbTxHash))) := by
+    have := mapM'_map decTxHashV2 (fun t : PbTxHash => encRaws (rawsOfTxHash t))
+      (hashes.map (fun p => (⟨some p.1, some p.2⟩ : PbTxHash)))
+      (fun t ht => by
+        simp only [List.mem_map] at ht
+        obtain ⟨p, hp, rfl⟩ := ht
+        exact decTxHashV2_enc p.1 p.2 (hh p hp).1 (hh p hp).2)
+    simpa [List.map_map, Function.comp_def] using this
+  have e := fun n (hn : n ≠ 1) => lastLen_repLenR_ne n 1
+    (hashes.map (fun p => encRaws (rawsOfTxHash ⟨some p.1, some p.2⟩))) (fun h => hn h.symm)
+  have l2 : lastLen 2 (rawsOfTxReq ⟨hashes, current, height, some (v : Int)⟩ (v : Int)) = some current := by
+    simp [rawsOfTxReq, lastLen_append, lastLen, e 2 (by decide)]
+  have l4 : lastLen 4 (rawsOfTxReq ⟨hashes, current, height, some (v : Int)⟩ (v : Int)) = some (natToBE v) := by
+    simp [rawsOfTxReq, lastLen_append, lastLen, e 4 (by decide)]
+  have l3 : lastVint 3 (rawsOfTxReq ⟨hashes, current, height, some (v : Int)⟩ (v : Int)) = some height := by
+    simp [rawsOfTxReq, lastVint_append, lastVint]
+  have hmapfix : (hashes.map (fun p => (⟨some p.1, some p.2⟩ : PbTxHash))).map
+      (fun t => (optHash t.hash, optHash t.subHash)) = hashes := by
+    rw [List.map_map]
+    exact map_fix _ hashes (fun p hp => by
+      simp [optHash, bytesToHash_id _ (hh p hp).1, bytesToHash_id _ (hh p hp).2])
+  simp only [unmarshalTxReq, parseRawV2_encRaws _ hwf, e1, em, txReqRequired, hasLen, hasVint, l2, l3, l4,
+    Option.isSome_some, Bool.and_self, if_true, Option.getD_some, optHash, bytesToHash_id _ hc,
+    beToNat_natToBE]
+  simp only [optHash] at hmapfix
+  rw [hmapfix]
+
+example : TxReqValid ⟨[(List.replicate 32 1, List.replicate 32 2)], List.replicate 32 3, 7, some 5⟩ := by
+  refine ⟨fun p hp => ?_, by decide, by decide, 5, rfl, by decide⟩
+  simp only [List.mem_singleton] at hp
+  subst hp
+  exact ⟨by decide, by decide⟩
+
+/-- A nil `BlockPv` makes the *sender* fault (`m.BlockPv.Bytes()` on a nil `*big.Int`): in-memory values only,
+    no byte string reaches this. -/
+example : marshalTxReq ⟨[], List.replicate 32 0, 0, none⟩ = .panic 601 := rfl
 
 end Rangers.Props.C09
